@@ -21,9 +21,19 @@ import (
 	lib "verif/harness/lib/c02"
 )
 
+func itoa(n int) string { return fmt.Sprint(n) }
+
 type flushInfo struct {
 	step  int
 	total int64 // 16 + payload size in the fault-free run
+}
+
+// sysInfo: ordinals (1-based, counted over the child's whole fault-free run) of the positioned
+// header rewrites and fsyncs each step makes: the targets of strace's EIO injection.
+type sysInfo struct {
+	flushHdr int // ordinal of the pwrite64 that follows the step's block write (0 = none)
+	syncHdr  int // ordinal of the Sync/Close's own header pwrite64 (0 = none)
+	fsync    int // ordinal of the Sync/Close's fsync (0 = none)
 }
 
 type job struct {
@@ -49,7 +59,7 @@ func main() {
 	a := common.ParseArgs()
 	lib.SilenceLogs()
 	run := common.NewRun(a, "C25", "HV.Storage.C25Fault")
-	run.Meta.Rule = "a case is one workload on one .hyd file with RLIMIT_FSIZE lowered around one or two calls so that the block write of the call stops after j bytes (j in {0, 1, 15, 16, 17, middle of the payload, one byte before the end}) and fails; observed: file operations, result of every call, Load of a copy of the file right after the faulted call and after the next call, Load of the final file; non-trivial = at least one block write really stopped after j > 0 bytes (a partial block reached the file); distinct = distinct (history with observed fault outcomes, observations)"
+	run.Meta.Rule = "a case is one workload on one .hyd file with RLIMIT_FSIZE lowered around one or two calls so that the block write of the call stops after j bytes (j in {0, 1, 15, 16, 17, middle of the payload, one byte before the end}) and fails; observed: file operations, result of every call, Load of a copy of the file right after the faulted call and after the next call, Load of the final file; also: strace makes a chosen in-place header rewrite (pwrite64) or fsync fail with EIO, alone or before/after a short block write, or the truncation back after a short write (and its retries); non-trivial = at least one block write really stopped after j > 0 bytes (a partial block reached the file) or a header rewrite / fsync really failed; distinct = distinct (history with observed fault outcomes, observations)"
 	rng := common.NewRng(a.Seed, "C25")
 	self, err := os.Executable()
 	if err != nil {
@@ -63,9 +73,9 @@ func main() {
 	}
 	defer os.RemoveAll(root)
 
-	nScripts, minW, maxW, nSingle, nDouble := 22, 4, 24, 4, 2
+	nScripts, minW, maxW, nSingle, nDouble, nEio, nTrunc := 22, 4, 24, 3, 2, 2, 2
 	if a.Tier == "thorough" {
-		nScripts, minW, maxW, nSingle, nDouble = 220, 4, 50, 6, 2
+		nScripts, minW, maxW, nSingle, nDouble, nEio, nTrunc = 220, 4, 50, 6, 2, 4, 3
 	}
 	scripts := make([]lib.Script, nScripts)
 	for i := range scripts {
@@ -73,6 +83,7 @@ func main() {
 	}
 	// fault-free run of every script in this process: which calls flush a block, how long it is
 	flushes := make([][]flushInfo, nScripts)
+	sysc := make([][]sysInfo, nScripts)
 	common.Parallel(nScripts, 16, func(i int) {
 		dir, err := os.MkdirTemp(root, "l")
 		if err != nil {
@@ -83,12 +94,21 @@ func main() {
 		s.Steps = append([]lib.Step{}, s.Steps...)
 		sizes, res := lib.RunInProc(dir, &s)
 		prev := int64(lib.FH + s.NLen())
+		sysc[i] = make([]sysInfo, len(s.Steps))
+		npw, nfs := 0, 0
 		for k := range s.Steps {
 			if !res[k].Executed || sizes[k] < 0 {
 				continue
 			}
 			if g := sizes[k] - prev; g > lib.BH {
 				flushes[i] = append(flushes[i], flushInfo{k, g})
+				npw++
+				sysc[i][k].flushHdr = npw
+			}
+			if s.Steps[k].K == lib.KSync || s.Steps[k].K == lib.KClose {
+				npw++
+				nfs++
+				sysc[i][k].syncHdr, sysc[i][k].fsync = npw, nfs
 			}
 			prev = sizes[k]
 		}
@@ -107,8 +127,17 @@ func main() {
 				fl = append(fl, f)
 			}
 		}
+		var inject map[string]string // EIO injection of the next mk call
+		var injectSteps []int     // steps to snapshot after because of it
 		mk := func(tag string, faults map[int]int) {
-			c := lib.Script{Name: s.Name, MBS: s.MBS, Steps: append([]lib.Step{}, s.Steps...)}
+			c := lib.Script{Name: s.Name, MBS: s.MBS, Steps: append([]lib.Step{}, s.Steps...), Inject: inject}
+			for _, st := range injectSteps {
+				c.Steps[st].Snap = true
+				if st+1 < len(c.Steps) {
+					c.Steps[st+1].Snap = true
+				}
+			}
+			inject, injectSteps = nil, nil
 			for st, j := range faults {
 				c.Steps[st].FaultJ = j
 				c.Steps[st].Snap = true
@@ -129,6 +158,114 @@ func main() {
 			menu := []int64{0, 1, 15, 16, 17, lib.BH + (f.total-lib.BH)/2, f.total - 1}
 			j := int(menu[(menuSel+n*2)%7])
 			mk("single", map[int]int{f.step: j})
+		}
+		// EIO faults (strace injection): the in-place header rewrite after a block write, the
+		// header rewrite of a Sync/Close, the fsync of a Sync/Close - alone, and followed by a
+		// short block write at a later flush (a second fault that needs the writer's bookkeeping
+		// to be right after the first)
+		var barriers []int // Sync / non-final Close steps that run with an open writer
+		for k := 0; k < last; k++ {
+			if sysc[i][k].fsync > 0 {
+				barriers = append(barriers, k)
+			}
+		}
+		laterShort := func(after int) map[int]int {
+			var later []flushInfo
+			for _, g := range fl {
+				if g.step > after {
+					later = append(later, g)
+				}
+			}
+			if len(later) == 0 {
+				return nil
+			}
+			g := later[rng.Intn(len(later))]
+			return map[int]int{g.step: pickJ(g.total)}
+		}
+		for n := 0; n < nEio; n++ {
+			f := fl[rng.Intn(len(fl))]
+			inject, injectSteps = map[string]string{"pwrite64": itoa(sysc[i][f.step].flushHdr)}, []int{f.step}
+			if n%2 == 0 {
+				mk("eio_flush_hdr", nil)
+			} else if ls := laterShort(f.step); ls != nil {
+				mk("eio_flush_hdr_then_short", ls)
+			} else {
+				mk("eio_flush_hdr", nil)
+			}
+		}
+		if len(barriers) > 0 {
+			b := barriers[rng.Intn(len(barriers))]
+			inject, injectSteps = map[string]string{"pwrite64": itoa(sysc[i][b].syncHdr)}, []int{b}
+			mk("eio_sync_hdr", laterShort(b))
+			b = barriers[rng.Intn(len(barriers))]
+			inject, injectSteps = map[string]string{"fsync": itoa(sysc[i][b].fsync)}, []int{b}
+			mk("eio_fsync", laterShort(b))
+			// both kinds in one run, at independent places
+			b = barriers[rng.Intn(len(barriers))]
+			f := fl[rng.Intn(len(fl))]
+			inject, injectSteps = map[string]string{"fsync": itoa(sysc[i][b].fsync), "pwrite64": itoa(sysc[i][f.step].flushHdr)}, []int{b, f.step}
+			mk("eio_fsync_and_hdr", laterShort(f.step))
+		}
+		// a short block write FIRST, then an EIO at some later header rewrite / fsync (the ordinal
+		// is only roughly aimed: the outcome is lifted from what strace shows)
+		{
+			f := fl[rng.Intn(len(fl))]
+			inject = map[string]string{"pwrite64": itoa(sysc[i][f.step].flushHdr + 1 + rng.Intn(3))}
+			if rng.Bool() {
+				inject = map[string]string{"fsync": itoa(1 + rng.Intn(3))}
+			}
+			for k := f.step + 1; k < last; k++ {
+				injectSteps = append(injectSteps, k)
+			}
+			mk("short_then_eio", map[int]int{f.step: pickJ(f.total)})
+		}
+		// a short block write whose truncation back fails too (first / first two / all but the
+		// last truncations fail), optionally with a second short write later: the writer must
+		// remember the dirty tail and remove it before anything else is appended
+		for n := 0; n < nTrunc; n++ {
+			f := fl[rng.Intn(len(fl))]
+			when := []string{"1", "1..2", "1..3", "2", "2..3"}[rng.Intn(5)]
+			inject = map[string]string{"ftruncate": when}
+			for k := f.step + 1; k < last && k < f.step+6; k++ {
+				injectSteps = append(injectSteps, k)
+			}
+			faults := map[int]int{f.step: pickJ(f.total)}
+			if n%2 == 1 {
+				if ls := laterShort(f.step); ls != nil {
+					for k, v := range ls {
+						faults[k] = v
+					}
+				}
+			}
+			mk("short_then_truncate_fails", faults)
+		}
+		// a Close whose block write stops short and whose truncation back fails leaves the torn
+		// tail in the closed file: the next writer must cut it off when it opens - and that
+		// truncation (or the fsync after it) fails as well; the open after that succeeds
+		{
+			var closes []flushInfo
+			for _, g := range fl {
+				if s.Steps[g.step].K == lib.KClose {
+					closes = append(closes, g)
+				}
+			}
+			if len(closes) > 0 {
+				g := closes[rng.Intn(len(closes))]
+				j := pickJ(g.total)
+				if j == 0 {
+					j = 1 // something must reach the file
+				}
+				inject = map[string]string{"ftruncate": "1..2"}
+				for k := g.step + 1; k < last && k < g.step+5; k++ {
+					injectSteps = append(injectSteps, k)
+				}
+				mk("short_at_close_then_open_truncate_fails", map[int]int{g.step: j})
+				inject = map[string]string{"ftruncate": "1", "fsync": itoa(sysc[i][g.step].fsync)}
+				for k := g.step + 1; k < last && k < g.step+5; k++ {
+					injectSteps = append(injectSteps, k)
+				}
+				mk("short_at_close_then_open_fsync_fails", map[int]int{g.step: j})
+			}
 		}
 		for n := 0; n < nDouble; n++ {
 			f := fl[rng.Intn(len(fl))]
@@ -190,6 +327,26 @@ func main() {
 		run.Meta.Traces++
 		nshort, nt := 0, false
 		for _, c := range j.hist {
+			if c.Kind == "openfail" {
+				run.Hist("open_failed_cutting_torn_tail")
+				nt = true
+			}
+			if c.Pre {
+				run.Hist("truncate_retry_failed")
+				nt = true
+			}
+			if c.TruncFail {
+				run.Hist("truncate_back_failed")
+				nt = true
+			}
+			if c.HdrFail {
+				run.Hist("eio_header_rewrite_after_block")
+				nt = true
+			}
+			if (c.Kind == "sync" || c.Kind == "close") && !c.SyncOK {
+				run.Hist("eio_in_" + c.Kind + "_barrier")
+				nt = true
+			}
 			if c.J < 0 {
 				continue
 			}
@@ -212,7 +369,7 @@ func main() {
 		switch {
 		case nshort >= 2:
 			run.Hist("double_fault")
-		case nshort == 0:
+		case nshort == 0 && !nt:
 			run.Hist("no_fault")
 		}
 		term := fmt.Sprintf("mkc25 %d %s %s %s %s %s", j.s.NLen(), lib.HistCoq(j.hist), lib.OpsCoq(j.tr.Ops), lib.BoolsCoq(j.oks),
